@@ -177,7 +177,10 @@ def monitor_verdicts(scs, names):
             EXTRA_EVALS[nm] = EXTRA_EVALS.get(nm, 0) + 1
         ans = out[pos + n - len(all_names): pos + n]
         pos += n
-        res.append([nm for nm, a in zip(all_names, ans) if a != ["ok"]])
+        bad = [nm for nm, a in zip(all_names, ans) if a != ["ok"]]
+        if "c13-quiescent" in names and "c13-quiescent" not in bad and CC.unknown_timers_left(impl):
+            bad.append("c13-quiescent")  # a timer the model has no name for is still armed after stop()
+        res.append(bad)
     return res
 
 
@@ -239,7 +242,7 @@ def check_batch(pid, scs, res, names, do_count=True):
             res.count("monitor_failures_seen:" + name)
             if sum(1 for f in res.monitor_failures if f["monitor"] == name) >= 3:
                 continue
-            if name in ("c02-nogap", "c02-complete"):
+            if name in ("c02-nogap", "c02-complete") or (name == "c13-quiescent" and CC.unknown_timers_left(impl)):
                 k = None
             else:
                 k = CC.first_failing_prefix(core.run_model, sc, impl, name)
